@@ -32,6 +32,7 @@ RULE = ('reference-encoded bpch images with 1-4 time blocks, 1-3 diagnostic '
 RULE += (' The grid header (halfpolar and center180 drawn independently, model name, resolution) both readers state is compared with the file, and the latitude/longitude cells both derive from it with each other.')
 RULE += (' Law 5c (every second file): the file read with and without scaling is saved as netCDF, opened as a plain netCDF file and written as bpch again; the independent decoder must find the original raw values.')
 RULE += (' One multi-step file in nine has time blocks that start together and end apart (same tau0, different tau1), each a time block of its own for both readers.')
+RULE += (' One file in three is also opened with nogroup=True and with lists of groups (first group; last group plus a group not in the file): tracer variables carry the prefix of exactly the groups not listed, data as in the default open.')
 ASSUMPTIONS = [
     'the reference codec follows the GEOS-Chem/GAMAP "CTM bin 02" '
     'description; shared misreadings of that description are out of reach',
@@ -340,6 +341,45 @@ def run(spec, res):
             problems.append('bpch1 after rewriting the tables in place '
                             'raised %r' % (e,))
         lay_tables(d, spec)
+        # (2c) the nogroup keyword: True serves every tracer without its
+        # group prefix, a list of groups drops the prefix for those groups
+        # only; the data are those of the default open
+        cats = list(dict.fromkeys(m['category'] for m in c['meta'].values()))
+        for ng in [True, [cats[0]], [cats[-1], 'NOT-IN-FILE']][
+                :3 if spec['seed'] % 3 == 0 else 0]:
+            want = {}
+            for k, m in c['meta'].items():
+                short = k[len(m['category']) + 1:]
+                want[k] = short if (ng is True or m['category'] in ng) else k
+            if len(set(want.values())) != len(want):
+                continue     # two groups hold a tracer of that name
+            try:
+                fg = bpch1(path, nogroup=ng, **kw)
+                res.hook('bpch1.return')
+                gk = list(fg.variables.keys())
+                for k, nk in want.items():
+                    other = k if nk != k else k[len(
+                        c['meta'][k]['category']) + 1:]
+                    if nk not in gk:
+                        problems.append(
+                            'bpch1(nogroup=%r): tracer %s is not served as '
+                            '%s (tracer variables %s)' % (
+                                ng, k, nk, [x for x in gk
+                                            if x in want.values() or
+                                            x in want][:8]))
+                    elif other in gk and other not in want.values():
+                        problems.append(
+                            'bpch1(nogroup=%r): tracer %s is served as %s '
+                            'and as %s' % (ng, k, nk, other))
+                    elif np.asarray(fg.variables[nk][...]).tobytes() != \
+                            np.asarray(fs.variables[k][...]).tobytes():
+                        problems.append(
+                            'bpch1(nogroup=%r): %s differs from %s of the '
+                            'default open' % (ng, nk, k))
+                del fg
+            except Exception as e:
+                res.hook('bpch1.return')
+                problems.append('bpch1(nogroup=%r) raised %r' % (ng, e))
         # (1) noscale read -> write == bytes
         fr = bpch1(path, noscale=True, **kw)
         res.hook('bpch1.return')
